@@ -27,7 +27,8 @@ package ocidir
 //@   infunc \)\.ManifestDelete$
 //@   requires digest-absent: forall(k, 0, len(index.Manifests), index.Manifests[k].Digest != caller.r.Digest)
 //@ func (*OCIDir).ManifestDelete(ctx, r, opts) (err)
-//@   prop C06
+//@   prop C06, C04
+//@   entry-assume !$indexWritten
 //@   loop 1 (i)
 //@     invariant range: -1 <= i && i < len(index.Manifests)
 //@     invariant suffix-clean: forall(k, i + 1, len(index.Manifests), index.Manifests[k].Digest != r.Digest)
@@ -54,7 +55,8 @@ package ocidir
 //@   prop C06
 //@   requires lock-held: $held(OCIDir.mu)
 //@ func (*OCIDir).manifestPut(ctx, r, m, opts) (err)
-//@   prop C06
+//@   prop C06, C04
+//@   entry-assume !$renamed
 //@   requires lock-held: $held(OCIDir.mu)
 //@ func (*OCIDir).updateIndex(r, d, child, locked) (err)
 //@   prop C06
@@ -71,3 +73,22 @@ package ocidir
 //@ func (*OCIDir).referrerPut
 //@   prop C06
 //@   requires lock-held: $held(OCIDir.mu)
+
+// C04 (OCI layout): a manifest file is in place (renamed from its temp file) before the index
+// is updated to point at it, and the index is rewritten before a deleted manifest's file is removed.
+//@ ghost $indexWritten bool
+//@ func (*OCIDir).writeIndex(r, i, locked) (err)
+//@   trusted ghost bookkeeping only
+//@   effect $indexWritten = (err == nil)
+//@ callsite (*OCIDir).updateIndex(r, d, child, locked)
+//@   prop C04
+//@   name updateIndex/manifestPut
+//@   in ~/scheme/ocidir
+//@   infunc \)\.manifestPut$
+//@   requires manifest-file-in-place-first: $renamed
+//@ callsite os.Remove(name)
+//@   prop C04
+//@   name os.Remove/ManifestDelete
+//@   in ~/scheme/ocidir
+//@   infunc \)\.ManifestDelete$
+//@   requires index-rewritten-first: !caller.changed || $indexWritten
